@@ -546,6 +546,23 @@ def group_cases():
         steps.append(("tper", "tr20", name[grp[0]], 0, "b1"))
     return cfg, steps
 
+def topology_cases():
+    """three address levels: hub 1, hub 1.7 beneath it, a leaf at 1.7.2 and a side board at 1.1; losing the inner hub must take the
+    leaf along (commands for its equipment return 1), the side board stays; losing the outer hub takes the rest"""
+    def board(i, cls, pt=None):
+        b = {"id": "b%d" % i, "uid": [cls, 0, 0x0D, 0x70, 0, i, 0xEE], "pts": [], "dpts": [], "sigs": [], "dsigs": [], "pers": [], "revs": [], "segs": []}
+        if pt: b["pts"].append({"id": "pb%d" % pt, "num": 3, "aspects": [["a1", 1], ["a2", 0]]})
+        return b
+    cfg = {"boards": [board(31, 0x80), board(32, 0x80), board(33, 0x00, 41), board(34, 0x00, 42)],
+           "trains": [{"id": "tr43", "addrh": 0x03, "addrl": 0x11, "steps": 28, "calib": None, "pers": []}]}
+    u = lambda k: hexs(cfg["boards"][k]["uid"])
+    steps = [("connect", 0, 0, 0, 1, u(0)), ("connect", 1, 0, 0, 7, u(1)), ("connect", 1, 7, 0, 2, u(2)), ("connect", 1, 0, 0, 1, u(3)),
+             ("switch_point", "pb41", "a1"), ("switch_point", "pb42", "a1"),
+             ("lost", u(1)), ("switch_point", "pb41", "a2"), ("switch_point", "pb42", "a2"),
+             ("connect", 1, 0, 0, 7, u(1)), ("connect", 1, 7, 0, 2, u(2)), ("switch_point", "pb41", "a1"),
+             ("lost", u(0)), ("switch_point", "pb41", "a2"), ("switch_point", "pb42", "a1")]
+    return cfg, steps
+
 # ------------------------------------------------------------------ running
 def run_one(exe, md, cfg, steps, tag):
     d = vlib.mktmp("c9cfg")
@@ -588,6 +605,19 @@ def judge_case(ck, cfg, steps, res, tag, stats, corr):
                         ck.violation("unexpected." + s[0], dict(replay_base, steps=[list(x) for x in steps[:i + 1]], step=i, command=list(s), state_before=strip_rest(prev),
                                                observed={"board": bid, "connected_and_address": got}, expected={"connected_and_address": want},
                                                reason="after the notice the board is not tracked as announced; later commands go to the tracked address"))
+                # a lost interface takes everything beneath it along: boards that were connected strictly beneath its address
+                if s[0] == "lost" and bid is not None:
+                    bcfg = next(b for b in cfg["boards"] if b["id"] == bid); was = prev["B"].get(bid, [0, None])
+                    if (bcfg["uid"][0] & 0x80) and was[0] == 1 and was[1]:
+                        base = [x for x in was[1] if x]
+                        for ob, (oc, oa) in prev["B"].items():
+                            oa_ = [x for x in (oa or []) if x]
+                            if ob != bid and oc == 1 and len(oa_) > len(base) and oa_[:len(base)] == base and o["state"]["B"].get(ob, [0])[0] != 0:
+                                stats["viol"]["unexpected.lost"] = stats["viol"].get("unexpected.lost", 0) + 1
+                                if stats["viol"]["unexpected.lost"] == 1:
+                                    ck.violation("unexpected.lost", dict(replay_base, steps=[list(x) for x in steps[:i + 1]], step=i, command=list(s), state_before=strip_rest(prev),
+                                                           observed={"board": ob, "still_connected_at": oa}, expected={"disconnected": True},
+                                                           reason="the lost interface's sub-node stays connected: commands for its equipment keep returning 0 and go to a dead address"))
             prev = o["state"]
             continue
         o = impl.get(str(i)); m = model.get(str(i))
@@ -627,7 +657,7 @@ def run(ck):
     cdir, ok = vlib.proof_phase(ck, "Properties_C09.v")
     exe = vlib.build_harness(); md = vlib.build_model_driver(cdir, "_C09")
     r = Rng(ck.seed).fork("C09")
-    cases = [("witness",) + witness_cases(), ("groups",) + group_cases()]
+    cases = [("witness",) + witness_cases(), ("groups",) + group_cases(), ("topology",) + topology_cases()]
     n_rand = 48 if quick else 1500
     for i in range(n_rand):
         profile = ["mix", "mix", "clean", "bits", "sweep", "mix"][i % 6]
